@@ -4,7 +4,7 @@ import Poulpy.Model.Core.Ops
 /-!
 Model driver for `ops` programs — same request format as `pvh ops` (harness/src/cmd_ops.rs):
 
-  `id ops be=… n=N scr=S ; decl ; … ; op ; …`   →   `id S S … [panic:<class>|err:<kind>]`
+  `id ops be=… n=N scr=S [sb=BYTES] ; decl ; … ; op ; …`   →   `id S S … [panic:<class>|err:<kind>]`
 
 Canonical form of one step `S`: `<r>=<rank>x<size>@<base2k>:v,v,…` (GLWE, values in
 (column, limb, coefficient) order) or `<r>=<rank>x<size>@<base2k>#<dnum>:v,…` (GGSW, the
@@ -103,7 +103,7 @@ def handle (ts : List String) : String :=
   match splitStmts ts with
   | [] => "empty"
   | head :: stmts =>
-    let p : Pool := { N := kvNat head "n", scr := kvInt head "scr", objs := [] }
+    let p : Pool := { N := kvNat head "n", scr := kvInt head "scr", objs := [], sb := ((kv head "sb").bind String.toNat?).getD 65536 }
     let out := exec p stmts []
     if out.isEmpty then "empty" else " ".intercalate out
 
